@@ -27,7 +27,7 @@ Total(ev) == Chk("total", TRUE, ev.out.st \in {"ok", "err"})
 
 ALLSEL == [t |-> "ALL"]
 Empty == [case |-> 0, creds |-> {}, ledger |-> {}, jwks |-> {}, honest |-> {}, holders |-> {}, issuers |-> {}, vpairs |-> {}, ppairs |-> {}, mpairs |-> {}]
-Init == l = 1 /\ st = Empty /\ TLCSet(1, <<>>) /\ TLCSet(2, [c \in {"total"} |-> 0]) /\ TLCSet(3, [n0 |-> 0, mo0 |-> 0, n1 |-> 0, mo1 |-> 0, dl1 |-> 0])
+Init == l = 1 /\ st = Empty /\ TLCSet(1, <<>>) /\ TLCSet(2, [c \in {"total"} |-> 0]) /\ TLCSet(3, [n0 |-> 0, mo0 |-> 0, n1 |-> 0, mo1 |-> 0, dl1 |-> 0, hn0 |-> 0, hmo0 |-> 0, hn1 |-> 0, hmo1 |-> 0, hdl1 |-> 0])
 
 Strat(s) == [kind |-> s.kind, paths |-> {s.paths[i].tok : i \in {j \in DOMAIN s.paths : ~s.paths[j].bad}}]
 HasBadPath(s) == \E i \in DOMAIN s.paths : s.paths[i].bad
@@ -46,11 +46,14 @@ IssuerPast(inst) == UNION {i.ids : i \in {x \in st.issuers : x.inst = inst}}
 (* also carry decoys (nd), count those that list all decoys last (dl).  u: original claims node (with member  *)
 (* order u.k), v: concrete payload node, D: digest -> decoded disclosure.  *)
 (***************************************************************************)
-Add3(a, b) == [n |-> a.n + b.n, mo |-> a.mo + b.mo, nd |-> a.nd + b.nd, dl |-> a.dl + b.dl]
-Zero3 == [n |-> 0, mo |-> 0, nd |-> 0, dl |-> 0]
+\* statistics per POSITION CLASS of the _sd list: in the clear part of the payload (n, mo, nd, dl) or inside the value of
+\* a disclosure (hn, hmo, hnd, hdl) - a list can leak in one class while the other is sorted (seeded W5_2m1)
+Add3(a, b) == [n |-> a.n + b.n, mo |-> a.mo + b.mo, nd |-> a.nd + b.nd, dl |-> a.dl + b.dl,
+               hn |-> a.hn + b.hn, hmo |-> a.hmo + b.hmo, hnd |-> a.hnd + b.hnd, hdl |-> a.hdl + b.hdl]
+Zero3 == [n |-> 0, mo |-> 0, nd |-> 0, dl |-> 0, hn |-> 0, hmo |-> 0, hnd |-> 0, hdl |-> 0]
 Sum3(s) == LET F[i \in 0..Len(s)] == IF i = 0 THEN Zero3 ELSE Add3(F[i-1], s[i]) IN F[Len(s)]
-RECURSIVE Leak(_,_,_)
-Leak(u, v, D) ==
+RECURSIVE Leak(_,_,_,_)
+Leak(u, v, D, inside) ==
   IF IsObj(u) /\ IsObj(v) THEN
      LET sdl == SdList(v)
          real == [i \in DOMAIN sdl |-> sdl[i].v \in DOMAIN D /\ D[sdl[i].v].t = "a" /\ Len(D[sdl[i].v].e) = 3 /\ D[sdl[i].v].e[2].t = "s"]
@@ -59,18 +62,21 @@ Leak(u, v, D) ==
          hidden == {nameAt(i) : i \in ri}
          inList == LET F[i \in 0..Len(sdl)] == IF i = 0 THEN <<>> ELSE IF real[i] THEN Append(F[i-1], nameAt(i)) ELSE F[i-1] IN F[Len(sdl)]
          inDoc == LET F[i \in 0..Len(u.k)] == IF i = 0 THEN <<>> ELSE IF u.k[i] \in hidden THEN Append(F[i-1], u.k[i]) ELSE F[i-1] IN F[Len(u.k)]
-         here == IF Cardinality(ri) >= 2
-                 THEN [n |-> 1, mo |-> IF inList = inDoc THEN 1 ELSE 0,
-                       nd |-> IF Cardinality(ri) < Len(sdl) THEN 1 ELSE 0,
-                       dl |-> IF Cardinality(ri) < Len(sdl) /\ (\A i \in ri, j \in DOMAIN sdl \ ri : i < j) THEN 1 ELSE 0]
-                 ELSE Zero3
+         one == Cardinality(ri) >= 2
+         mo == IF one /\ inList = inDoc THEN 1 ELSE 0
+         nd == IF one /\ Cardinality(ri) < Len(sdl) THEN 1 ELSE 0
+         dl == IF one /\ Cardinality(ri) < Len(sdl) /\ (\A i \in ri, j \in DOMAIN sdl \ ri : i < j) THEN 1 ELSE 0
+         here == IF ~one THEN Zero3
+                 ELSE IF inside THEN [Zero3 EXCEPT !.hn = 1, !.hmo = mo, !.hnd = nd, !.hdl = dl]
+                 ELSE [Zero3 EXCEPT !.n = 1, !.mo = mo, !.nd = nd, !.dl = dl]
          digOf(k) == sdl[CHOOSE i \in ri : nameAt(i) = k].v
          ks == SetToSeq({k \in DOMAIN u.f : k \in DOMAIN v.f \/ k \in hidden})
-     IN Add3(here, Sum3([i \in DOMAIN ks |-> LET k == ks[i] IN Leak(u.f[k], IF k \in DOMAIN v.f THEN v.f[k] ELSE D[digOf(k)].e[3], D)]))
+     IN Add3(here, Sum3([i \in DOMAIN ks |-> LET k == ks[i] IN
+                           IF k \in DOMAIN v.f THEN Leak(u.f[k], v.f[k], D, inside) ELSE Leak(u.f[k], D[digOf(k)].e[3], D, TRUE)]))
   ELSE IF IsArr(u) /\ IsArr(v) /\ Len(u.e) = Len(v.e) THEN
      Sum3([i \in DOMAIN u.e |-> LET x == v.e[i] IN
-             IF IsPlaceholder(x) THEN (IF x.f["..."].v \in DOMAIN D /\ D[x.f["..."].v].t = "a" /\ Len(D[x.f["..."].v].e) = 2 THEN Leak(u.e[i], D[x.f["..."].v].e[2], D) ELSE Zero3)
-             ELSE Leak(u.e[i], x, D)])
+             IF IsPlaceholder(x) THEN (IF x.f["..."].v \in DOMAIN D /\ D[x.f["..."].v].t = "a" /\ Len(D[x.f["..."].v].e) = 2 THEN Leak(u.e[i], D[x.f["..."].v].e[2], D, TRUE) ELSE Zero3)
+             ELSE Leak(u.e[i], x, D, inside)])
   ELSE Zero3
 
 (***************************************************************************)
@@ -118,10 +124,11 @@ OnIssue(ev) ==
                  /\ p.ids = Ids(m.discs) /\ p.pl = pl /\ p.plb64 = ev.out.plb64
                  /\ ev.alg \in {"HS256", "EdDSA"} => p.jwtid = m.jwt.id)
        /\ IF IsObj(pl) /\ IsObj(U)
-          THEN LET k == Leak(U, UserPart(pl, ev.hkjwk # NONE, U), D)  a == TLCGet(3) IN
-               \* two populations: issuances without decoys (member order) and with decoys (member order, decoys last)
-               TLCSet(3, IF ev.decoy THEN [a EXCEPT !.n1 = @ + k.n, !.mo1 = @ + k.mo, !.dl1 = @ + k.dl]
-                                     ELSE [a EXCEPT !.n0 = @ + k.n, !.mo0 = @ + k.mo])
+          THEN LET k == Leak(U, UserPart(pl, ev.hkjwk # NONE, U), D, FALSE)  a == TLCGet(3) IN
+               \* populations: issuances without decoys (member order) and with decoys (member order, decoys last),
+               \* each for lists in the clear payload and (h..) for lists inside disclosed values
+               TLCSet(3, IF ev.decoy THEN [a EXCEPT !.n1 = @ + k.n, !.mo1 = @ + k.mo, !.dl1 = @ + k.dl, !.hn1 = @ + k.hn, !.hmo1 = @ + k.hmo, !.hdl1 = @ + k.hdl]
+                                     ELSE [a EXCEPT !.n0 = @ + k.n, !.mo0 = @ + k.mo, !.hn0 = @ + k.hn, !.hmo0 = @ + k.hmo])
           ELSE TRUE
        /\ st' = [st EXCEPT
             !.creds = @ \cup {[jwtid |-> m.jwt.id, U |-> U, S |-> S, at |-> MarkRoot(U, S), hkjwk |-> ev.hkjwk, key |-> ev.key, alg |-> ev.alg,
